@@ -4,6 +4,7 @@ import (
 	"fmt"
 	"sort"
 	"strings"
+	"unicode"
 
 	"github.com/tobgu/qframe"
 	"github.com/tobgu/qframe/config/newqf"
@@ -282,6 +283,9 @@ func runLikeCase(c likeCase) *core.Failure {
 		// an invalid pattern is an error even when no cell is looked at
 		_, perr = model.LikeMatch(c.Pattern, "", c.Cmp == "like")
 	}
+	if perr == nil && c.HasP2 {
+		_, perr = model.LikeMatch(c.Pattern2, "", c.Cmp == "like")
+	}
 	what := fmt.Sprintf("Filter(s %s %q [or %q: %v]) on %s column (order %s chunk %d seq %q sub %q)", c.Cmp, c.Pattern, c.Pattern2, c.HasP2, map[bool]string{false: "string", true: "enum"}[c.Enum], c.Order, c.Chunk, c.Seq, c.Sub)
 	if perr != nil {
 		if res.Err == nil {
@@ -450,6 +454,42 @@ func c18Run(ctx *core.Ctx) {
 				}
 				if ctx.Mine() {
 					exec(likeCase{Pattern: p1, Pattern2: p2, HasP2: true, Cmp: cmp, Order: "asc", Enum: true, Chunk: 0}, "or/enum")
+				}
+			}
+		}
+	}
+	// every code point below U+20000 that has a case mapping (also those that are not lower-case LETTERS: circled
+	// letters, roman numerals, title-case digraphs, combining marks): as a cell alone, in front of and behind other
+	// characters; ilike with the code point, its upper-case form, and both as prefix / suffix patterns
+	for r := rune(0x80); r < 0x20000; r++ {
+		if unicode.ToUpper(r) == r && unicode.ToLower(r) == r {
+			continue
+		}
+		c := string(r)
+		up := strings.ToUpper(c)
+		seq := []string{c, "x" + c + "y", c + c, "A" + c}
+		for _, p := range []string{c, up, "%" + up, up + "%", "%" + c + "y"} {
+			for _, en := range []bool{false, true} {
+				if ctx.Mine() {
+					exec(likeCase{Pattern: p, Cmp: "ilike", Seq: seq, Enum: en}, "ilike-every-cased-code-point")
+				}
+			}
+		}
+		if ctx.Mine() {
+			exec(likeCase{Upper: true, Seq: seq, BufLen: 10}, "toupper-every-cased-code-point")
+		}
+	}
+	// an invalid pattern next to a valid one under Or, in both orders: the error must come out wherever it stands
+	for _, bad := range []string{"a(b", "%[x%", "(", "%*abc"} {
+		for _, good := range []string{"a%", "%b", "A", "%"} {
+			for _, cmp := range []string{"like", "ilike"} {
+				for _, en := range []bool{false, true} {
+					if ctx.Mine() {
+						exec(likeCase{Pattern: bad, Pattern2: good, HasP2: true, Cmp: cmp, Order: "asc", Enum: en}, "or/invalid-first")
+					}
+					if ctx.Mine() {
+						exec(likeCase{Pattern: good, Pattern2: bad, HasP2: true, Cmp: cmp, Order: "asc", Enum: en}, "or/invalid-second")
+					}
 				}
 			}
 		}
